@@ -101,6 +101,7 @@ def rdOp : Rd (Option Op) := do
   | "nb" => return some .normalBuffer
   | "ab" => return some .altBuffer
   | "sz" => do let w ← Rd.int; let h ← Rd.int; return some (.setSize ⟨w, h⟩)
+  | "wr" => do let n ← Rd.num; let bs ← rdBytes n; return some (.rawWrite bs)
   | _ => return none
 
 def parseOp (s : String) : Option Op := (rdOp.run (words s)).1
